@@ -550,7 +550,13 @@ def _run(ctx, bt, scale=1):
     for _ in range(ctx.scale(2, 10) * scale):
         specs += order_sensitive_specs(ctx.rng)
     specs += life_specs(ctx, ctx.scale(12, 80) * scale)
-    child_runs(ctx, bt, specs)
+    # benchmark_random in fresh interpreters under different hash seeds (its random backtests see the caller's data)
+    bench = [gen_benchmark_case(ctx.rng) for _ in range(ctx.scale(4, 30) * scale)]
+    for c in bench:
+        c["weigher"] = "WeighRandomly"
+        c["k"] = max(1, len(c["names"]) - 1)
+    ctx.count("benchmark_random:cases-across-hash-seeds", len(bench))
+    child_runs(ctx, bt, specs + bench)
 
 
 def search(ctx, bt):
